@@ -76,22 +76,22 @@ kf("KF-mult-dim-mutates", ["C07"],
 kf("KF-add-loop-guard-forward", ["C06"],
    "add_loop(guard=True) forwarded cursors through one new level instead of two",
    "LoopIR_scheduling.DoAddLoop",
-   {"op": ["add_loop"], "kind": ["carried-not-found", "forward-exception", "dangling"]},
-   "seed loops/l1: add_loop(loop, 'r', 'n', guard=True); forward(loop cursor) denotes the new if", status="fixed", commit="2bc2d667")
+   {"op": ["add_loop"], "kind": ["carried-not-found", "forward-exception", "dangling"], "args": RE(r", true\]$")},
+   "seed loops/l1: add_loop(loop, 'r', 'n', guard=True); forward(loop cursor) denotes the new if (a two-step wrap with composed forwarding repairs it, but tests/asplos25/gemmini_schedules.py relies on the wrong forwarding -- `p.forward(child).parent().body()[0]` expects the new `if` -- so the repair cannot be committed with the test suite unedited)")
 kf("KF-join-loops-prefix", ["C01"],
    "join_loops accepted loops whose bodies are [s1,s2] and [s1] (zip-based comparison)",
    "LoopIR.LoopIR_Compare.match_stmts",
    {"op": ["join_loops"], "kind": ["value-mismatch"], "cause": RE(r"bodies-differ-in-length")},
-   "seed loops/join: join_loops(loop 3, loop 4)", status="fixed", commit="9f5e98e0")
+   "seed loops/join: join_loops(loop 3, loop 4)", status="fixed", commit="11e6c3d4")
 kf("KF-remove-loop-zero-trip", ["C01"],
    "remove_loop / hoist_stmt test `hi > 0` instead of `hi > lo`, so the body of a never-executing loop `seq(n, n)` is made unconditional",
    "LoopIR_scheduling.DoRemoveLoop (Check_IsPositiveExpr(hi))",
    {"op": ["remove_loop", "std.hoist_stmt", "std.hoist_from_loop"], "kind": ["value-mismatch"], "cause": RE(r"loop-lo-eq-hi")},
-   "seed loops/zero_trip: remove_loop(`for i in seq(n, n)`)", status="fixed", commit="f3ec6ef0")
+   "seed loops/zero_trip: remove_loop(`for i in seq(n, n)`)", status="fixed", commit="1bd64eb7")
 kf("KF-prefix-match", ["C01", "C04", "C05"],
    "statement-list matching zips the two lists, so a shorter list matches a longer one: join_loops accepts bodies [s1,s2]/[s1]; replace of a 2-statement block by a 1-loop callee drops the second statement",
    "LoopIR_unification / LoopIR_scheduling.DoJoinLoops (LoopIR_Compare.match_stmts uses zip)",
-   {"op": ["replace", "std.replace_all", "std.replace_all_stmts"], "kind": ["value-mismatch"], "cause": RE(r"block-len-2")},
+   {"op": ["replace", "std.replace_all", "std.replace_all_stmts"], "kind": ["value-mismatch"], "cause": RE(r"block-len-[23]")},
    "seed call/replace1: replace(body[3:5], vset0) keeps only the first loop")
 kf("KF-replace-no-recheck", ["C04", "C05"],
    "replace does not re-check the callee's assertions or size positivity at the new call site",
@@ -112,11 +112,61 @@ kf("KF-mod-simplify-negative", ["C01", "C04", "C12"],
    "index normalisation drops `% c` when only the upper bound of the numerator is below c; a negative numerator then changes value ((i-3)%4 -> i-3 ... printed 1+i after +4)",
    "LoopIR_scheduling._DoNormalize.modulo_simplification",
    {"op": ["simplify", "std.cleanup", "std.cut_loop_and_unroll", "std.unroll_loops", "unroll_loop"], "kind": ["value-mismatch", "oob", "oob_base", "abort"], "seed": "divmod/neg"},
-   "seed divmod/neg: simplify")
+   "seed divmod/neg: simplify", status="fixed", commit="e7ff5ba9")
 kf("KF-inline-window-of-window", ["C04"],
    "inline_window of a window that is itself windowed later leaves a window expression whose type annotation has the wrong rank; compilation then fails with an internal AssertionError",
    "LoopIR_scheduling.DoInlineWindow (chained window type not recomputed)",
    {"op": ["inline_window"], "oracle": "compile", "kind": ["AssertionError"]},
    "seed win/wow: inline_window(`w = x[1:5, 1:5]`) then c_code_str()")
+kf("KF-range-join-none", ["C13"],
+   "IndexRange.__or__ treated an unbounded side of one operand as 'no information': [0,3] | (-inf,2] = [0,3]",
+   "rewrite/range_analysis.IndexRange.__or__ (used by stdlib bounds_inference)",
+   {"oracle": "join", "kind": ["not-contained"]},
+   "IndexRange(0,0,3) | IndexRange(0,None,2)", status="fixed", commit="ebae6b28")
+kf("KF-find-read-arity", ["C16"],
+   "a read pattern with index holes (`x[_]`, `x[i]`) also matches the bare buffer `x` passed as a call argument, because pattern and node index lists are zipped without comparing their lengths",
+   "frontend/pattern_match.PatternMatch.match_e (Read case)",
+   {"kind": ["find_all", "scoped-find", "find-k", "find-default"], "cause": "indexed-read-pattern-matches-bare-buffer-argument"},
+   "seed config/callee: find_all('x[_]') returns the argument `x` of `useb(n, x)`")
+kf("KF-find-hash-space", ["C16"],
+   "find_loop accepts `name # n` (its own regex allows the space) but the match-number parser did not, so the first loop was returned",
+   "frontend/pattern_match.match_pattern",
+   {"kind": ["find_loop"], "space_form": True},
+   "find_loop('i # 1') on a procedure with two `i` loops", status="fixed", commit="e437b08e")
+kf("KF-print-bool-mem", ["C17"],
+   "bool (and stride) typed arguments are printed with a memory annotation (`b: bool @ DRAM`) that the parser rejects, so the printed text of such a procedure cannot be parsed back",
+   "core/LoopIR_pprint._print_fnarg (golden files contain the annotation, so the printer cannot be changed without editing tests)",
+   {"kind": ["printed-text-rejected"], "err": RE(r"size types should not be annotated")},
+   "any procedure with a `bool` argument, e.g. seed guard/ifs")
+kf("KF-shared-nodes-else-branch", ["C01", "C10", "C04"],
+   "specialize puts the same statement objects into both branches of the new if (Alpha_Rename returns unchanged nodes as they are); later analyses locate the focused statement by object identity, find it in the then-branch first and therefore analyse a statement of the else-branch under the un-negated condition (eliminate_dead_code keeps a dead body, add_loop accepts a zero-trip bound, ...)",
+   "LoopIR_scheduling.DoSpecialize + new_eff.ContextExtraction (`s is self.stmts[0]`)",
+   {"cause": RE(r"target-in-else-branch,source-has-shared-nodes")},
+   "seed config/loopbound: specialize(loop body, 'i == 0'); eliminate_dead_code(`if i == CFG.a` in the else branch)")
+kf("KF-bind-expr-by-ref-arg", ["C01", "C04"],
+   "bind_expr on a scalar passed by reference to a call binds a copy and passes the copy, so the callee's write to the scalar is lost",
+   "LoopIR_scheduling.DoBindExpr",
+   {"op": ["bind_expr"], "kind": ["value-mismatch", "uninit"], "cause": RE(r"binds-call-argument")},
+   "seed alloc/carried: extract_subproc(loop body) then bind_expr(argument `t` of the call)")
+kf("KF-autofission-unchecked", ["C01", "C04"],
+   "autofission (deprecated) performs no dependence check at all",
+   "LoopIR_scheduling.DoFissionLoops",
+   {"op": ["autofission"]},
+   "seed dep/raw: autofission(after `x[i] = y[i] + 1.0`, 2)")
+kf("KF-write-config-in-loop", ["C01", "C10"],
+   "write_config at a gap inside a loop reports an empty set of modified fields although the final value of the field changes (a later iteration's write is taken to be overwritten by an earlier statement of the loop body)",
+   "new_eff.Check_DeleteConfigWrite (post-effects inside loops)",
+   {"op": ["write_config"], "kind": ["config-mismatch"], "cause": RE(r"inside-loop")},
+   "seed config/callee: add_loop(setb(2), 'r', 2, guard=True); write_config(after the if, CFG, 'b', 1)")
+kf("KF-simplify-shadowed-facts", ["C12"],
+   "simplify looked facts up by printed name, so `if i == 0:` rewrote uses of an inner, shadowing `i` to 0",
+   "LoopIR_scheduling.DoSimplify.add_fact / is_known_constant",
+   {"ctx": "guard_then_shadow"},
+   "for i: if i == 0: for i in seq(0,4): y[0, i] = 1.0  ->  y[0, 0] = 1.0", status="fixed", commit="c660962f")
+kf("KF-print-generated-name-collision", ["C17"],
+   "the printer did not reserve the names it generates: after unrolling, `t`, `t` and a literal `t_1` were printed as t, t_1, t_1",
+   "core/LoopIR_pprint.PrintEnv.get_name",
+   {"kind": ["same-name-overlapping-scopes"]},
+   "seed dup/gen_names: unroll_loop(i)", status="fixed", commit="ee574bd0")
 json.dump({"findings": F}, open(os.path.join(HERE, "known_findings.json"), "w"), indent=1)
 print(len(F), "entries")
